@@ -186,6 +186,16 @@ theorem pySplit_head_cons (sep : Char) (n : Nat) (c : Char) (r : List Char) (hc 
     | nil => exact absurd hl (pySplit_ne_nil _ _ _)
     | cons a t => exact ⟨a, t, by simp [consHead]⟩
 
+/-- a trailing separator adds one empty piece -/
+theorem splitAll_append_sep (sep : Char) (s : List Char) :
+    splitAll sep (s ++ [sep]) = splitAll sep s ++ [[]] := by
+  induction s with
+  | nil => simp [splitAll]
+  | cons c r ih =>
+    simp only [List.cons_append, splitAll]; split
+    · rw [ih]; simp
+    · rw [ih, consHead_append _ _ _ (splitAll_ne_nil _ _)]
+
 /-! ### split_path: the model's pieces against the spec's segments -/
 
 /-- with `rest_with_last` the pieces after the leading slash are the spec's segments -/
